@@ -45,6 +45,22 @@ pub enum Q {
     DebugInfo,
 }
 
+/// What happens (single-threaded, with exclusive access) after the threads of a phase have joined.
+#[derive(Clone, Debug, Serialize, Deserialize, PartialEq)]
+pub enum Mutation {
+    None,
+    UseTags(Vec<String>),
+    EnableTags(Vec<String>),
+    DisableTags(Vec<String>),
+    Optimize,
+}
+
+#[derive(Clone, Debug, Serialize, Deserialize)]
+pub struct Phase {
+    pub threads: Vec<Vec<Q>>,
+    pub then: Mutation,
+}
+
 #[derive(Clone, Debug, Serialize, Deserialize)]
 pub struct Scenario {
     pub property: String,
@@ -53,7 +69,8 @@ pub struct Scenario {
     pub tags: Vec<String>,
     /// true: Arc<Blocker> (also exercises set_regex_discard_policy / discard_regex concurrently)
     pub blocker: bool,
-    pub threads: Vec<Vec<Q>>,
+    /// concurrent phases; between two phases the embedder switches tags / optimises
+    pub phases: Vec<Phase>,
     pub policy: (u64, u64),
     pub clock_step: u64,
     /// "random" | "pct1" | "pct2" | "pct3"
@@ -91,34 +108,55 @@ pub fn generate(seed: u64) -> Scenario {
     let w = gen_world(seed, &profile());
     let mut r = Rng::stream(seed, "c19");
     let blocker = r.chance(40);
-    let n = r.range(2, 4);
-    let mut threads = vec![];
-    for _ in 0..n {
-        let m = r.range(1, 6);
-        let mut qs = vec![];
-        for _ in 0..m {
-            let q = match r.below(if blocker { 12 } else { 10 }) {
-                0..=5 => Q::Net(r.below(w.probes.len())),
-                6..=7 => Q::Csp(r.below(w.probes.len())),
-                8..=9 => {
-                    if blocker {
-                        Q::Net(r.below(w.probes.len()))
-                    } else {
-                        Q::Cos(r.below(w.pages.len()))
+    let n_phases = match r.below(10) {
+        0..=4 => 1,
+        5..=7 => 2,
+        _ => 3,
+    };
+    let mut phases = vec![];
+    for pi in 0..n_phases {
+        let n = r.range(2, 4);
+        let mut threads = vec![];
+        for _ in 0..n {
+            let m = r.range(1, 6);
+            let mut qs = vec![];
+            for _ in 0..m {
+                let q = match r.below(if blocker { 12 } else { 10 }) {
+                    0..=5 => Q::Net(r.below(w.probes.len())),
+                    6..=7 => Q::Csp(r.below(w.probes.len())),
+                    8..=9 => {
+                        if blocker {
+                            Q::Net(r.below(w.probes.len()))
+                        } else {
+                            Q::Cos(r.below(w.pages.len()))
+                        }
                     }
-                }
-                10 => Q::SetPolicy(*r.pick(&[1u64, 1, 1000, 0]), *r.pick(&[0u64, 1, 1000])),
-                _ => {
-                    if r.chance(70) {
-                        Q::Discard(r.below(32))
-                    } else {
-                        Q::DebugInfo
+                    10 => Q::SetPolicy(*r.pick(&[1u64, 1, 1000, 0]), *r.pick(&[0u64, 1, 1000])),
+                    _ => {
+                        if r.chance(70) {
+                            Q::Discard(r.below(32))
+                        } else {
+                            Q::DebugInfo
+                        }
                     }
-                }
-            };
-            qs.push(q);
+                };
+                qs.push(q);
+            }
+            threads.push(qs);
         }
-        threads.push(qs);
+        let subset = |r: &mut Rng| -> Vec<String> { w.tags.iter().filter(|_| r.chance(50)).cloned().collect() };
+        let then = if pi + 1 == n_phases {
+            Mutation::None
+        } else {
+            match r.below(8) {
+                0..=3 => Mutation::UseTags(subset(&mut r)),
+                4 => Mutation::EnableTags(subset(&mut r)),
+                5 => Mutation::DisableTags(subset(&mut r)),
+                6 if blocker => Mutation::Optimize,
+                _ => Mutation::UseTags(subset(&mut r)),
+            }
+        };
+        phases.push(Phase { threads, then });
     }
     let tags: Vec<String> = w.tags.iter().filter(|_| r.chance(50)).cloned().collect();
     let sched = match r.below(6) {
@@ -134,8 +172,9 @@ pub fn generate(seed: u64) -> Scenario {
         world: w,
         tags,
         blocker,
-        threads,
-        policy: (1, *r.pick(&[0u64, 1, 2])),
+        phases,
+        // half of the scenarios keep compiled regexes alive (default-like policy), half discard aggressively
+        policy: if r.chance(50) { (1, *r.pick(&[0u64, 1, 2])) } else { (30_000_000_000, 180_000_000_000) },
         clock_step: *r.pick(&[1u64, 1, 1000, 1_000_000_000]),
         sched,
         sched_seed: r.next(),
@@ -174,6 +213,21 @@ fn build_shared(sc: &Scenario) -> Shared {
         e.set_regex_discard_policy(pol);
         Shared::Engine(e)
     }
+}
+
+fn mutate(s: &mut Shared, m: &Mutation) {
+    let tv = |t: &Vec<String>| -> Vec<String> { t.clone() };
+    seams::track(|| match (s, m) {
+        (_, Mutation::None) => {}
+        (Shared::Engine(e), Mutation::UseTags(t)) => e.use_tags(&tv(t).iter().map(|x| x.as_str()).collect::<Vec<_>>()),
+        (Shared::Engine(e), Mutation::EnableTags(t)) => e.enable_tags(&tv(t).iter().map(|x| x.as_str()).collect::<Vec<_>>()),
+        (Shared::Engine(e), Mutation::DisableTags(t)) => e.disable_tags(&tv(t).iter().map(|x| x.as_str()).collect::<Vec<_>>()),
+        (Shared::Engine(_), Mutation::Optimize) => {}
+        (Shared::Blocker(b, _), Mutation::UseTags(t)) => b.use_tags(&tv(t).iter().map(|x| x.as_str()).collect::<Vec<_>>()),
+        (Shared::Blocker(b, _), Mutation::EnableTags(t)) => b.enable_tags(&tv(t).iter().map(|x| x.as_str()).collect::<Vec<_>>()),
+        (Shared::Blocker(b, _), Mutation::DisableTags(t)) => b.disable_tags(&tv(t).iter().map(|x| x.as_str()).collect::<Vec<_>>()),
+        (Shared::Blocker(b, _), Mutation::Optimize) => b.optimize(),
+    })
 }
 
 fn answer(s: &Shared, q: &Q, w: &World, reqs: &[Option<Request>]) -> String {
@@ -220,45 +274,58 @@ fn is_observation(q: &Q) -> bool {
 fn scenario_body(sc: Arc<Scenario>) {
     vh::reset();
     vh::clock_set_auto_advance_ns(sc.clock_step);
+    seams::run_begin(sc.world.knobs.alloc_seed, seams::Policy::from_u8(sc.world.knobs.alloc_policy));
     let reqs: Arc<Vec<Option<Request>>> = Arc::new(sc.world.probes.iter().map(|p| Request::new(&p.url, &p.source, &p.rtype).ok()).collect());
-    // the sequential run: a twin engine queried while only one simulated thread exists
-    let twin = build_shared(&sc);
-    let mut expected: BTreeMap<String, String> = BTreeMap::new();
-    for t in &sc.threads {
-        for q in t {
-            if is_observation(q) {
-                expected.entry(format!("{:?}", q)).or_insert_with(|| answer(&twin, q, &sc.world, &reqs));
-            }
-        }
-    }
-    drop(twin);
-    let expected = Arc::new(expected);
-    let shared = Arc::new(build_shared(&sc));
-    let mut hs = vec![];
-    for (ti, qs) in sc.threads.iter().enumerate() {
-        let shared = shared.clone();
-        let expected = expected.clone();
-        let sc2 = sc.clone();
-        let reqs = reqs.clone();
-        let qs = qs.clone();
-        hs.push(shuttle::thread::spawn(move || {
-            for (qi, q) in qs.iter().enumerate() {
-                let got = answer(&shared, q, &sc2.world, &reqs);
+    // the sequential run: a twin engine that goes through the same phases while only one simulated
+    // thread exists; the shared engine's rules live in the simulated allocator region
+    let mut twin = build_shared(&sc);
+    let mut shared = seams::track(|| build_shared(&sc));
+    for (pi, phase) in sc.phases.iter().enumerate() {
+        let mut expected: BTreeMap<String, String> = BTreeMap::new();
+        for t in &phase.threads {
+            for q in t {
                 if is_observation(q) {
-                    let want = &expected[&format!("{:?}", q)];
-                    assert!(&got == want, "C19-ANSWER thread {} query {} {:?}: concurrent answer [{}] != sequential answer [{}]", ti, qi, q, got, want);
+                    expected.entry(format!("{:?}", q)).or_insert_with(|| answer(&twin, q, &sc.world, &reqs));
                 }
             }
-        }));
+        }
+        let expected = Arc::new(expected);
+        let arc = Arc::new(shared);
+        let mut hs = vec![];
+        for (ti, qs) in phase.threads.iter().enumerate() {
+            let shared = arc.clone();
+            let expected = expected.clone();
+            let sc2 = sc.clone();
+            let reqs = reqs.clone();
+            let qs = qs.clone();
+            hs.push(shuttle::thread::spawn(move || {
+                for (qi, q) in qs.iter().enumerate() {
+                    let got = answer(&shared, q, &sc2.world, &reqs);
+                    if is_observation(q) {
+                        let want = &expected[&format!("{:?}", q)];
+                        assert!(&got == want, "C19-ANSWER phase {} thread {} query {} {:?}: concurrent answer [{}] != sequential answer [{}]", pi, ti, qi, q, got, want);
+                    }
+                }
+            }));
+        }
+        for h in hs {
+            h.join().expect("C19-JOIN a query thread panicked");
+        }
+        assert!(vh::section_overlaps() == 0, "C19-OVERLAP two threads were inside the same regex manager at the same time ({} overlaps)", vh::section_overlaps());
+        shared = match Arc::try_unwrap(arc) {
+            Ok(s) => s,
+            Err(_) => panic!("C19-HARNESS engine still shared after join"),
+        };
+        // the engine is still usable afterwards (no poison)
+        for q in phase.threads.iter().flatten().take(3) {
+            let _ = answer(&shared, q, &sc.world, &reqs);
+        }
+        mutate(&mut twin, &phase.then);
+        mutate(&mut shared, &phase.then);
     }
-    for h in hs {
-        h.join().expect("C19-JOIN a query thread panicked");
-    }
-    assert!(vh::section_overlaps() == 0, "C19-OVERLAP two threads were inside the regex manager at the same time ({} overlaps)", vh::section_overlaps());
-    // the engine is still usable afterwards (no poison)
-    for q in sc.threads.iter().flatten().take(3) {
-        let _ = answer(&shared, q, &sc.world, &reqs);
-    }
+    drop(shared);
+    drop(twin);
+    let _ = seams::run_end();
 }
 
 pub struct ExecOut {
@@ -397,7 +464,9 @@ fn warm_up() {
     warm_up_statics(16);
     for i in 0..8u64 {
         let mut sc = generate(mix3(0x57a7_1c19, 1, i));
-        sc.threads = vec![sc.threads[0].clone()];
+        for ph in sc.phases.iter_mut() {
+            ph.threads.truncate(1);
+        }
         let _ = execute(&sc, false);
     }
 }
@@ -445,27 +514,38 @@ fn minimize(sc0: &Scenario, v0: &Violation) -> Scenario {
         }
         chunk /= 2;
     }
-    // fewer threads, fewer queries
-    let mut ti = best.threads.len();
-    while ti > 0 && best.threads.len() > 1 {
-        ti -= 1;
+    // fewer phases, threads and queries
+    let mut pi = best.phases.len();
+    while pi > 0 && best.phases.len() > 1 {
+        pi -= 1;
         let mut c = best.clone();
-        c.threads.remove(ti);
+        c.phases.remove(pi);
         if let Some((c2, _)) = search_fails(&c, &class, budget) {
             best = c2;
         }
     }
-    for ti in 0..best.threads.len() {
-        let mut qi = best.threads[ti].len();
-        while qi > 0 {
-            qi -= 1;
-            if best.threads[ti].len() <= 1 {
-                break;
-            }
+    for pi in 0..best.phases.len() {
+        let mut ti = best.phases[pi].threads.len();
+        while ti > 0 && best.phases[pi].threads.len() > 1 {
+            ti -= 1;
             let mut c = best.clone();
-            c.threads[ti].remove(qi);
+            c.phases[pi].threads.remove(ti);
             if let Some((c2, _)) = search_fails(&c, &class, budget) {
                 best = c2;
+            }
+        }
+        for ti in 0..best.phases[pi].threads.len() {
+            let mut qi = best.phases[pi].threads[ti].len();
+            while qi > 0 {
+                qi -= 1;
+                if best.phases[pi].threads[ti].len() <= 1 {
+                    break;
+                }
+                let mut c = best.clone();
+                c.phases[pi].threads[ti].remove(qi);
+                if let Some((c2, _)) = search_fails(&c, &class, budget) {
+                    best = c2;
+                }
             }
         }
     }
@@ -504,8 +584,10 @@ fn main() {
                 let mut add = |k: &str, v: u64| *stats.entry(k.to_string()).or_insert(0) += v;
                 add("yield_points_reached", o.yields);
                 add("clock_reads", o.clock_reads);
-                add("threads", sc.threads.len() as u64);
-                add("queries", sc.threads.iter().map(|t| t.len() as u64).sum());
+                add("threads", sc.phases.iter().map(|p| p.threads.len() as u64).sum());
+                add("queries", sc.phases.iter().flat_map(|p| p.threads.iter()).map(|t| t.len() as u64).sum());
+                add("phases", sc.phases.len() as u64);
+                add("mutations_between_phases", sc.phases.iter().filter(|p| p.then != Mutation::None).count() as u64);
                 add(&format!("scheduler_{}", sc.sched), 1);
                 add(if sc.blocker { "shared_blocker_runs" } else { "shared_engine_runs" }, 1);
                 for (i, n) in vh::PROBE_NAMES.iter().enumerate() {
@@ -515,11 +597,11 @@ fn main() {
                 let mut shape = Digest::new();
                 shape.u64(o.steps_digest);
                 shape.u64(sc.seed);
-                let nontrivial = sc.threads.len() >= 2 && o.probes[7] >= 1;
+                let nontrivial = sc.phases[0].threads.len() >= 2 && o.probes[7] >= 1;
                 let mut l = out.lock();
                 let _ = writeln!(l, "R {} {:x} {:x} {:x} {}", idx, o.steps_digest, 0, shape.0, nontrivial as u8);
                 if k < 2 && start < 2 {
-                    let _ = writeln!(l, "E {}", json!({"seed": sc.seed, "shared": if sc.blocker {"Arc<Blocker>"} else {"Arc<Engine>"}, "scheduler": sc.sched, "threads": sc.threads.iter().map(|t| t.iter().map(|q| format!("{:?}", q)).collect::<Vec<_>>()).collect::<Vec<_>>(), "policy_ns": sc.policy, "clock_step_ns": sc.clock_step, "n_rules": sc.world.rules.len(), "first_rules": sc.world.rules.iter().take(5).map(|r| r.text()).collect::<Vec<_>>()}));
+                    let _ = writeln!(l, "E {}", json!({"seed": sc.seed, "shared": if sc.blocker {"Arc<Blocker>"} else {"Arc<Engine>"}, "scheduler": sc.sched, "phases": sc.phases.iter().map(|p| json!({"threads": p.threads.iter().map(|t| t.iter().map(|q| format!("{:?}", q)).collect::<Vec<_>>()).collect::<Vec<_>>(), "then": format!("{:?}", p.then)})).collect::<Vec<_>>(), "policy_ns": sc.policy, "clock_step_ns": sc.clock_step, "n_rules": sc.world.rules.len(), "first_rules": sc.world.rules.iter().take(5).map(|r| r.text()).collect::<Vec<_>>()}));
                 }
                 if let Some(v) = o.violation {
                     let mut sc = sc;
